@@ -16,6 +16,8 @@ pub fn swarm() -> Swarm {
         alloc_modes: true,
         stalls: true,
         stall_max_ns: 3_000_000,
+        // a worker held up inside Park::subscribe / unpark while the parker is already a round further
+        stall_focus: &["src/park.rs", "src/sync/blocking.rs"],
         spurious_park: true,
         est_len: 3000,
         max_steps: 400_000,
